@@ -188,3 +188,110 @@ pub fn scan(args: &[String]) -> i32 {
     }
     0
 }
+
+/// args: <file of finite symbols (scan output)> <outfile> [max_fuc_size]
+/// For each symbol: try short words w in the generators of its fundamental
+/// group; keep covers for the subgroup <w> that are branch-free manifolds
+/// with non-trivial H1 (lens-space like), at most 3 per symbol.
+pub fn curate_manifold_covers(args: &[String]) -> i32 {
+    use crate::dsx::{self, Sym};
+    use crate::homology;
+    use rust_dsymbols::covers::subgroup_cover;
+    use rust_dsymbols::fpgroups::free_words::FreeWord;
+    use rust_dsymbols::fundamental_group::fundamental_group;
+    let text = std::fs::read_to_string(&args[0]).expect("read");
+    let max_fuc: usize = args.get(2).and_then(|s| s.parse().ok()).unwrap_or(600);
+    let mut items: Vec<(String, usize)> = vec![];
+    for l in text.lines() {
+        let mut parts = l.split('\t');
+        let sym = parts.next().unwrap_or("").to_string();
+        let info = parts.next().unwrap_or("");
+        let fuc: usize = info.split("in=").nth(1).and_then(|x| x.split(' ').next()).and_then(|x| x.parse().ok()).unwrap_or(0);
+        if fuc > 0 && fuc <= max_fuc {
+            items.push((sym, fuc));
+        }
+    }
+    let n_threads = 16;
+    let chunks: Vec<Vec<(String, usize)>> = (0..n_threads).map(|t| items.iter().skip(t).step_by(n_threads).cloned().collect()).collect();
+    let results: Vec<Vec<String>> = std::thread::scope(|sc| {
+        let hs: Vec<_> = chunks
+            .iter()
+            .map(|chunk| {
+                sc.spawn(move || {
+                    let mut out = vec![];
+                    for (text, fuc) in chunk {
+                        let s = match Sym::parse(text) {
+                            Ok(s) => s,
+                            Err(_) => continue,
+                        };
+                        let ds = s.to_partial();
+                        let fg = fundamental_group(&ds);
+                        let ng = fg.nr_generators() as isize;
+                        let mut gens: Vec<isize> = vec![];
+                        for g in 1..=ng {
+                            gens.push(g);
+                            gens.push(-g);
+                        }
+                        let mut words: Vec<Vec<isize>> = vec![];
+                        for &a in &gens {
+                            for &b in &gens {
+                                if a != -b {
+                                    words.push(vec![a, b]);
+                                }
+                                for &c in &gens {
+                                    if a != -b && b != -c {
+                                        words.push(vec![a, b, c]);
+                                    }
+                                }
+                            }
+                        }
+                        words.truncate(400);
+                        let mut kept: Vec<(usize, Vec<u64>)> = vec![];
+                        for w in words {
+                            if kept.len() >= 3 {
+                                break;
+                            }
+                            let r = std::panic::catch_unwind(std::panic::AssertUnwindSafe(|| subgroup_cover(&ds, &vec![FreeWord::from(w.clone())])));
+                            let c = match r {
+                                Ok(c) => c,
+                                Err(_) => continue,
+                            };
+                            let cs = match Sym::from_dsym(&c) {
+                                Ok(cs) => cs,
+                                Err(_) => continue,
+                            };
+                            if cs.n >= *fuc || cs.n > 400 || !cs.all_v_one() {
+                                continue;
+                            }
+                            if dsx::manifold_check(&cs).is_err() || !cs.is_connected() || dsx::covering_degree(&cs, &s).is_none() {
+                                continue;
+                            }
+                            let h = match homology::h1(&cs) {
+                                Ok(h) => h,
+                                Err(_) => continue,
+                            };
+                            if h.is_empty() || kept.iter().any(|(n, hh)| *n == cs.n && *hh == h) {
+                                continue;
+                            }
+                            kept.push((cs.n, h.clone()));
+                            out.push(format!(
+                                "{}\t{}\t{}\t{}",
+                                text,
+                                w.iter().map(|x| x.to_string()).collect::<Vec<_>>().join(" "),
+                                cs.n,
+                                h.iter().map(|x| x.to_string()).collect::<Vec<_>>().join(",")
+                            ));
+                        }
+                    }
+                    out
+                })
+            })
+            .collect();
+        hs.into_iter().map(|h| h.join().unwrap_or_default()).collect()
+    });
+    let mut all: Vec<String> = results.into_iter().flatten().collect();
+    all.sort();
+    std::fs::write(&args[1], all.join("\n") + "\n").expect("write");
+    println!("{} manifold covers with non-trivial finite H1 for {} symbols", all.len(), items.len());
+    0
+}
